@@ -43,18 +43,18 @@ type feedCall struct {
 }
 
 type feedWorld struct {
-	mu       sync.Mutex
-	calls    []*feedCall
-	attempt  int
-	pattern  string // one letter per attempt: which step of that attempt fails (G, P, U), '-' none
-	fired    int
-	seamN    int
-	cancelAt int // seam number at which the context is cancelled (-1 never)
-	cancel   context.CancelFunc
+	mu        sync.Mutex
+	calls     []*feedCall
+	attempt   int
+	pattern   string // one letter per attempt: which step of that attempt fails (G, P, U), '-' none
+	fired     int
+	seamN     int
+	cancelAt  int // seam number at which the context is cancelled (-1 never)
+	cancel    context.CancelFunc
 	cancelled bool
-	inner    feeder.Witness // stub or real
-	compete  func()         // moves the real witness between the feeder's read and its update
-	competed bool
+	inner     feeder.Witness // stub or real
+	compete   func()         // moves the real witness between the feeder's read and its update
+	competed  bool
 }
 
 var errTransient = errors.New("injected transient failure")
@@ -139,19 +139,19 @@ func (s *stubWitness) Update(ctx context.Context, logID string, oldSize uint64, 
 }
 
 type c13Result struct {
-	calls     []*feedCall
-	out       []byte
-	err       error
-	returned  bool
-	fetched   []byte
-	cpValid   bool
-	fired     int
-	finalReal []byte
-	simTime   time.Duration
-	cancelled bool
+	calls         []*feedCall
+	out           []byte
+	err           error
+	returned      bool
+	fetched       []byte
+	cpValid       bool
+	fired         int
+	finalReal     []byte
+	simTime       time.Duration
+	cancelled     bool
 	callsAtCancel int
-	W         *World
-	infra     string
+	W             *World
+	infra         string
 }
 
 func c13Exec(t *testing.T, p *Plan) (r *c13Result) {
@@ -632,11 +632,11 @@ func init() {
 			return out
 		},
 		Components: map[string]string{
-			"internal/feeder (FeedOnce, submitToWitness, backoff)": "real",
+			"internal/feeder (FeedOnce, submitToWitness, backoff)":            "real",
 			"omniwitness.witnessAdapter + internal/witness + in-memory store": "real (in the 'real witness' half of the shapes)",
-			"witness (other half)": "recording stub that accepts anything, as the suite's fake does, but remembers its latest checkpoint",
+			"witness (other half)":                    "recording stub that accepts anything, as the suite's fake does, but remembers its latest checkpoint",
 			"log party (FetchCheckpoint, FetchProof)": "harness stub over the reference tree",
-			"clock, backoff timers": "synctest fake clock; backoff jitter from math/rand pinned by randautoseed=0",
+			"clock, backoff timers":                   "synctest fake clock; backoff jitter from math/rand pinned by randautoseed=0",
 		},
 		Assumptions: []string{"an injected failure hits one step of one attempt and is transient", "cancellation is judged leniently: calls of the attempt in progress may complete, a new attempt must not start; during a backoff sleep no call at all may follow"},
 	})
